@@ -71,9 +71,9 @@ func runLBRender(c *load.Ctx, r *report.RuleResult) {
 		}
 	}
 	if clamp {
-		r.OK("clamp|errors.(*DocumentError).preparation", c.Pos(prep.Pos()), "a position outside the content is brought back inside it")
+		r.OK("clamp|errors.(DocumentError).preparation", c.Pos(prep.Pos()), "a position outside the content is brought back inside it")
 	} else {
-		r.Bad("clamp|errors.(*DocumentError).preparation", c.Pos(prep.Pos()), "preparation() does not bring a position that lies outside the file content back inside it: rendering an error whose position was taken from another file (an added type) indexes out of range")
+		r.Bad("clamp|errors.(DocumentError).preparation", c.Pos(prep.Pos()), "preparation() does not bring a position that lies outside the file content back inside it: rendering an error whose position was taken from another file (an added type) indexes out of range")
 	}
 	// (b) readers of the content
 	content := c.Func("fs", "File.Content")
